@@ -180,3 +180,70 @@ Proof.
   - apply IH; [intros x Hx; apply Hi; right; exact Hx|exact H].
   - discriminate.
 Qed.
+
+Lemma remove_first_incl x l : incl (remove_first x l) l.
+Proof.
+  induction l as [|y r IH]; [intros z Hz; exact Hz|]. cbn [remove_first]. destruct (pair_eqb y x).
+  - intros z Hz. right. exact Hz.
+  - intros z [->|Hz]; [left; reflexivity|right; apply IH; exact Hz].
+Qed.
+
+(* the middle tuples still pending are always among the declared ones *)
+Lemma check_timing_mids tol mark space m s d next st st' :
+  check_timing tol mark space m s d next st = MidHit st' -> incl (ht_mids st') (ht_mids st).
+Proof.
+  unfold check_timing. intros H.
+  repeat match type of H with
+         | (if ?c then _ else _) = _ => destruct c
+         | match ?x with _ => _ end = _ => destruct x
+         | MidHit _ = MidHit _ => injection H as <-; cbn [ht_mids]
+         | MidMiss = MidHit _ => discriminate H
+         | MidIdx = MidHit _ => discriminate H
+         end;
+  first [ apply incl_refl | apply remove_first_incl ].
+Qed.
+Lemma check_middles_mids tol mark space d next st : forall iter st',
+  check_middles tol mark space iter d next st = MidHit st' -> incl (ht_mids st') (ht_mids st).
+Proof.
+  induction iter as [|[m s] r IH]; intros st' H; cbn [check_middles] in H; [discriminate|].
+  destruct (check_timing tol mark space m s d next st) eqn:E.
+  - injection H as <-. eapply check_timing_mids. exact E.
+  - apply IH. exact H.
+  - discriminate.
+Qed.
+
+Lemma table_loop_clean tol t mids d next : forall iter st st', incl iter t -> incl (ht_mids st) mids ->
+  table_loop tol iter d next st = Ok st' ->
+  extends t mids (ht_clean st) (ht_clean st') /\ incl (ht_mids st') mids.
+Proof.
+  induction iter as [|[mark space] r IH]; intros st st' Hi Hm H; cbn [table_loop] in H; [discriminate|].
+  assert (In (mark, space) t) as Ht by (apply Hi; left; reflexivity).
+  destruct (match ht_pairs st with [] => MidMiss | _ :: _ => check_middles tol mark space (ht_mids st) d next st end) eqn:E.
+  - injection H as <-. destruct (ht_pairs st); [discriminate E|]. split.
+    + eapply check_middles_clean; [exact Ht|exact Hm|exact E].
+    + intros x Hx. apply Hm. eapply check_middles_mids; [exact E|exact Hx].
+  - destruct (matchb tol d mark).
+    + injection H as <-. split; [apply extends_1; eapply nominal_mark; exact Ht|exact Hm].
+    + destruct (matchb tol d space).
+      * injection H as <-. split; [apply extends_1; eapply nominal_space; exact Ht|exact Hm].
+      * apply IH; [intros x Hx; apply Hi; right; exact Hx|exact Hm|exact H].
+  - discriminate.
+Qed.
+
+Lemma data_loopT_clean tol t mids : forall ds st st', incl (ht_mids st) mids ->
+  data_loopT tol t st ds = Ok st' -> extends t mids (ht_clean st) (ht_clean st').
+Proof.
+  induction ds as [|d r IH]; intros st st' Hm H; cbn [data_loopT] in H.
+  - injection H as <-. apply extends_refl.
+  - destruct (table_loop tol t d (hd_error r) st) as [st1| | |] eqn:E; cbn [bind] in H; try discriminate.
+    destruct (table_loop_clean tol t mids d (hd_error r) t st st1 (incl_refl t) Hm E) as [H1 H2].
+    eapply extends_trans; [exact H1|]. apply IH; [exact H2|exact H].
+Qed.
+
+(* whatever is parsed: the data part of the normalised code is made of table entries and declared middle durations *)
+Theorem data_loopT_nominal tol t mids cl0 ds fin :
+  data_loopT tol t {| ht_pairs := []; ht_clean := cl0; ht_mids := mids |} ds = Ok fin ->
+  exists added, ht_clean fin = added ++ cl0 /\ Forall (nominal t mids) added.
+Proof.
+  intros H. apply (data_loopT_clean tol t mids ds {| ht_pairs := []; ht_clean := cl0; ht_mids := mids |} fin); [apply incl_refl|exact H].
+Qed.
